@@ -275,6 +275,22 @@ func runC03(c *Ctx) {
 	}
 	// gang tests range over all pod sets of the job
 	isGang := c.Anchor("O4", pkgPGInfo, "PodGroupInfo", "IsGangSatisfied")
+	if isGang != nil {
+		// GHOST: ANY pod set below its minimum makes the workload's gang test false, for every number of pod sets
+		okG, und, desc := p.ghostForall(isGang, func(in ssa.Instruction) (ssa.Value, bool, bool) {
+			cc, ok := in.(*ssa.Call)
+			if !ok || calleeOf(cc) == nil || calleeOf(cc).Name() != "IsGangSatisfied" || sameFunc(calleeOf(cc), isGang) {
+				return nil, false, false
+			}
+			return cc, false, true
+		}, triF)
+		if und != "" {
+			c.Undec("O4", "GHOST", funcKey(isGang)+": any unsatisfied pod set makes the gang unsatisfied", isGang.Pos(), und)
+		} else {
+			c.Check(okG, "O4", "GHOST", funcKey(isGang)+": any unsatisfied pod set makes the gang unsatisfied", isGang.Pos(), desc,
+				"PodGroupInfo.IsGangSatisfied can answer true although one of its pod sets is below its minimum: the solver accepts a scenario that places only part of the gang — "+desc)
+		}
+	}
 	shouldPipe := c.Anchor("O4", pkgPGInfo, "PodGroupInfo", "ShouldPipelineJob")
 	if isGang != nil && shouldPipe != nil {
 		rangesOf := func(fn *ssa.Function) []string {
